@@ -64,7 +64,7 @@ func c09AscendingIndex(i ssa.Value) bool {
 }
 
 func c09Concat(r *fw.Run, p *fw.Program) {
-	ru := r.Rule("C09.concat", "bitio.MultiReader (concatenation of array members and of padding+data): readerEnds[i] is the running sum of the members' lengths in order; ReadBitsAt answers EOF exactly for offsets >= total, delegates to the first reader whose cumulative end exceeds the offset with the offset reduced by the previous end, and suppresses a member's EOF only when more data follows", 6)
+	ru := r.Rule("C09.concat", "bitio.MultiReader (concatenation of array members and of padding+data): readerEnds[i] is the running sum of the members' lengths in order; ReadBitsAt answers EOF exactly for offsets >= total, delegates to the first reader whose cumulative end exceeds the offset with the offset reduced by the previous end, and suppresses a member's EOF only when more data follows; endPos (a member's length) is its SeekEnd position with the cursor read before and restored after; ReadBits reads at the cursor and advances it by the bits returned (borrowed from C01.clamp)", 10)
 
 	if fn := c09Fn(ru, p, "pkg/bitio.NewMultiReader"); fn != nil {
 		s := newC09Sym(fn)
@@ -96,7 +96,7 @@ func c09Concat(r *fw.Run, p *fw.Program) {
 					for _, ed := range acc.Edges {
 						if c, isC := c09ConstInt(ed); isC && c == 0 {
 							zero = true
-						} else if ed == st.Val {
+						} else if ed == st.Val || c09ReadsBack(ed, st) {
 							loop = true
 						}
 					}
@@ -152,6 +152,8 @@ func c09Concat(r *fw.Run, p *fw.Program) {
 			_ = s
 		}
 	}
+
+	c09EndPos(ru, p)
 
 	fn := c09Fn(ru, p, "(*pkg/bitio.MultiReader).ReadBitsAt")
 	if fn == nil {
@@ -335,4 +337,23 @@ func c09LoadGlobal(v ssa.Value) (string, bool) {
 		return "", false
 	}
 	return g.Pkg.Pkg.Path() + "." + g.Name(), true
+}
+
+// c09ReadsBack: v is a load of the very element the store wrote (same slice, same index value),
+// executed after the store: the stored value read back.
+func c09ReadsBack(v ssa.Value, st *ssa.Store) bool {
+	x, idx, ok := c09LoadIndex(v)
+	if !ok {
+		return false
+	}
+	ia, ok := st.Addr.(*ssa.IndexAddr)
+	if !ok || ia.X != x || ia.Index != idx {
+		return false
+	}
+	ld := v.(*ssa.UnOp)
+	if !c09InstrDominates(st, ld) {
+		return false
+	}
+	// no other store into that slice in between (there is a single store into it in this function)
+	return true
 }
